@@ -66,10 +66,10 @@ const (
 	c25DefSyn   = 2
 )
 
-func c25Key(x int) string  { return fmt.Sprintf("k%d", c11xMod(x, c25NOpts+1)) }
+func c25Key(x int) string  { return fmt.Sprintf("k%d", c25Mod(x, c25NOpts+1)) }
 func c25Default(x int) int { return 100 + x }
 
-func c11xMod(a, n int) int {
+func c25Mod(a, n int) int {
 	if a < 0 {
 		a = -a
 	}
@@ -97,14 +97,14 @@ func (r *c25Render) ops(ops []c25Op) (string, string) {
 
 func (r *c25Render) op(o c25Op) (string, string) {
 	k := c25Key(o.X)
-	kq := coqlit.N(uint64(c11xMod(o.X, c25NOpts+1)))
+	kq := coqlit.N(uint64(c25Mod(o.X, c25NOpts+1)))
 	switch o.K {
 	case "set":
 		r.tag++
 		t := r.tag
 		q := coqlit.App("CSet", coqlit.N(uint64(t)), kq, coqlit.N(uint64(o.V)))
 		cmd := fmt.Sprintf("config set %s %s %d", c25App, k, o.V)
-		if c11xMod(o.Syn, c25SetSyn) == 1 {
+		if c25Mod(o.Syn, c25SetSyn) == 1 {
 			cmd = fmt.Sprintf("out %d -> config set %s %s", o.V, c25App, k)
 		}
 		return fmt.Sprintf(`try { %s; out "t%d=0" }; catch { out "t%d!" }`, cmd, t, t), q
@@ -113,7 +113,7 @@ func (r *c25Render) op(o c25Op) (string, string) {
 		t := r.tag
 		q := coqlit.App("CDefault", coqlit.N(uint64(t)), kq)
 		cmd := fmt.Sprintf("config default %s %s", c25App, k)
-		if c11xMod(o.Syn, c25DefSyn) == 1 {
+		if c25Mod(o.Syn, c25DefSyn) == 1 {
 			cmd = fmt.Sprintf("!config %s %s", c25App, k)
 		}
 		return fmt.Sprintf(`try { %s; out "t%d=0" }; catch { out "t%d!" }`, cmd, t, t), q
@@ -123,7 +123,7 @@ func (r *c25Render) op(o c25Op) (string, string) {
 		q := coqlit.App("CGet", coqlit.N(uint64(t)), kq)
 		return fmt.Sprintf(`out "t%d=${config get %s %s}"`, t, c25App, k), q
 	case "call":
-		syn := c11xMod(o.Syn, c25CallSyn)
+		syn := c25Mod(o.Syn, c25CallSyn)
 		if syn == 2 && (r.sess || r.otherMod) {
 			syn = 0
 		}
@@ -158,7 +158,7 @@ func (r *c25Render) op(o c25Op) (string, string) {
 	case "block":
 		body, q := r.ops(o.Body)
 		q = coqlit.App("CBlock", q)
-		switch c11xMod(o.Syn, c25BlockSyn) {
+		switch c25Mod(o.Syn, c25BlockSyn) {
 		case 0:
 			return "if { true } then { " + body + " }", q
 		case 1:
